@@ -8,11 +8,14 @@ import (
 	"fmt"
 	"os"
 	"path/filepath"
+	"runtime"
 	"sort"
 	"strconv"
 	"strings"
 	"sync"
+	"syscall"
 	"time"
+	"unsafe"
 
 	"verif/smt"
 	"verif/symgo"
@@ -81,6 +84,7 @@ type Outcome struct {
 	Instrs     int
 	Forks      int
 	Queries    int
+	Stretched  int // queries asked again with a stretched timeout (solver starved of CPU)
 	SolverS    float64
 	WallS      float64
 	Funcs      []string
@@ -102,7 +106,7 @@ type RunOpts struct {
 	Abstract      bool // UF abstraction of mul/div
 	KeepInterp    bool
 	Solver        string
-	ConfigBudgetS int                                // wall-clock budget of the symbolic run of one configuration (default 120 s)
+	ConfigBudgetS int                                // CPU-time budget of the symbolic run of one configuration (default 120 s)
 	Post          func(o *Outcome, in *symgo.Interp) // extra obligations built by the driver (e.g. against vlog terms)
 }
 
@@ -161,6 +165,7 @@ func runOne(p *symgo.Program, cfg Config, opt RunOpts) Outcome {
 	o2 := runOnce(p, cfg, opt)
 	o2.WallS += o.WallS
 	o2.Queries += o.Queries
+	o2.Stretched += o.Stretched
 	o2.SolverS += o.SolverS
 	return o2
 }
@@ -188,7 +193,13 @@ func runOnce(p *symgo.Program, cfg Config, opt RunOpts) (o Outcome) {
 	if budget <= 0 {
 		budget = 120
 	}
-	in.Deadline = t0.Add(time.Duration(budget) * time.Second)
+	// the budget is CPU time of this worker (thread + solver process); the wall-clock deadline is a cap for
+	// a machine so loaded that nothing moves
+	runtime.LockOSThread()
+	defer runtime.UnlockOSThread()
+	in.BudgetCPU = time.Duration(budget) * time.Second
+	in.ThreadCPU = threadCPU
+	in.Deadline = t0.Add(time.Duration(20*budget) * time.Second)
 	if cfg.Setup != nil {
 		cfg.Setup(in)
 	}
@@ -228,6 +239,7 @@ func runOnce(p *symgo.Program, cfg Config, opt RunOpts) (o Outcome) {
 	}
 	o.Instrs, o.Forks = in.Stats.Instrs, in.Stats.Forks
 	o.Queries, o.SolverS = sol.Queries, sol.Seconds
+	o.Stretched = sol.Stretched
 	o.Funcs = in.SortedFuncs()
 	for n := range in.Stats.Natives {
 		o.Natives = append(o.Natives, n)
@@ -246,6 +258,15 @@ func runOnce(p *symgo.Program, cfg Config, opt RunOpts) (o Outcome) {
 	}
 	o.WallS = time.Since(t0).Seconds()
 	return
+}
+
+// threadCPU reads the CPU clock of the calling OS thread (CLOCK_THREAD_CPUTIME_ID).
+func threadCPU() time.Duration {
+	var ts syscall.Timespec
+	if _, _, e := syscall.Syscall(syscall.SYS_CLOCK_GETTIME, 3, uintptr(unsafe.Pointer(&ts)), 0); e != 0 {
+		return time.Duration(time.Now().UnixNano()) // no CPU clock: fall back to wall-clock time
+	}
+	return time.Duration(ts.Sec)*time.Second + time.Duration(ts.Nsec)
 }
 
 // ---- evidence ----
